@@ -1085,7 +1085,7 @@ class Unit:
             # closure fields are named after what they capture; specs may refer to them by position instead (robust against renaming
             # the captured variable): VF_CAP_<closure struct>_<k> is the k-th capture field
             caps = [cname for kind, cname, x in fields if kind == 'field']
-            self.struct_text[name] += ''.join('\n#define VF_CAP_%s_%d %s' % (sn, i + 1, c) for i, c in enumerate(caps))
+            self.struct_text[name] += ''.join('\n#define VF_CAP_%s_%d %s' % (sn, i + 1, c) for i, c in enumerate(caps)) + '\n#define VF_NCAP_%s %d' % (sn, len(caps))
         self.struct_state[name] = 'done'
         self.struct_order.append(name)
         self.layout_checks.append((name, sn, checks, rec))
@@ -1216,7 +1216,7 @@ class Unit:
             self.want(d)
         return names
 
-    def add_lambda_root(self, within, file_suffix=None, line=None, ordinal=None):
+    def add_lambda_root(self, within, file_suffix=None, line=None, ordinal=None, overload=None):
         """operator() of a lambda inside the (instantiated) function `within`: the ordinal-th in source order (stable under edits
         that shift lines), or the one written at file:line"""
         want = norm_name(within)
@@ -1245,6 +1245,9 @@ class Unit:
             else:
                 walk(d, found)
         found = list({id(x): x for x in found}.values())
+        if overload is not None and len(found) >= overload:
+            # several overloads of `within` (const / non-const): the overload-th in source order
+            found = [sorted(found, key=lambda n: (n.get('_file') or '', n.get('_line') or 0))[overload - 1]]
         if len(found) != 1:
             raise Abort('lambda %s inside %s: %d matches (expected exactly one)' % ('#%d' % ordinal if ordinal is not None else 'at %s:%s' % (file_suffix, line), within, len(found)))
         rec = [c for c in found[0]['inner'] if c.get('kind') == 'CXXRecordDecl'][0]
